@@ -48,6 +48,7 @@ def opOf (s : String) : Option (Op × List Seg) :=
   | ["ains", p, i, v] => do some (.ains (← idxOf i) (← scalarOf v), pathOf p)
   | ["arepl", p, i, v] => do some (.arepl (← idxOf i) (← scalarOf v), pathOf p)
   | ["adel", p, i] => do some (.adel (← idxOf i), pathOf p)
+  | ["adelr", p, i] => do some (.adel (← idxOf i), pathOf p)   -- the harness removes through `Array::retain`
   | ["tpush", p] => some (.tpush, pathOf p)
   | ["tdel", p, i] => do some (.tdel (← idxOf i), pathOf p)
   | ["inl", p, k] => do some (.inl (← keyOf k), pathOf p)
